@@ -390,4 +390,87 @@ example : dedup (fun a b : Nat => a % 10 == b % 10) (fun e : Nat => if e = 0 the
     [[1, 11, 0, 2], [21, 3, 0], [2, 13, 4]] [] = ([1, 2, 3, 4], [some [1, 0, 2], some [3, 0], some [4]]) := by
   decide
 
+/-! ### equality that is an equivalence only on a domain
+
+IRI equality is an equivalence on a domain (C14: accepted absolute URLs with lower-case queries), not on
+all strings.  The theorems above quantify over relations that are equivalences everywhere; this section
+carries them to relations that are equivalences on a decidable domain `D`, for lists all of whose ids
+lie in `D`: the code's loops only ever compare ids that occur in the lists, so on such lists they cannot
+tell `eqv` from the relation `onDomain eqv D`, which IS an equivalence everywhere. -/
+
+structure IsEquivOn (eqv : α → α → Bool) (D : α → Bool) : Prop where
+  refl : ∀ a, D a = true → eqv a a = true
+  symm : ∀ a b, D a = true → D b = true → eqv a b = true → eqv b a = true
+  trans : ∀ a b c, D a = true → D b = true → D c = true → eqv a b = true → eqv b c = true → eqv a c = true
+
+/-- `eqv` inside the domain, identity outside -/
+def onDomain [DecidableEq α] (eqv : α → α → Bool) (D : α → Bool) (a b : α) : Bool :=
+  if D a && D b then eqv a b else decide (a = b)
+
+theorem onDomain_equiv [DecidableEq α] (eqv : α → α → Bool) (D : α → Bool) (h : IsEquivOn eqv D) :
+    IsEquiv (onDomain eqv D) := by
+  refine ⟨?_, ?_, ?_⟩
+  · intro a
+    unfold onDomain
+    by_cases ha : D a = true
+    · simp [ha, h.refl a ha]
+    · simp [ha]
+  · intro a b
+    unfold onDomain
+    by_cases ha : D a = true <;> by_cases hb : D b = true <;> simp [ha, hb]
+    · exact h.symm a b ha hb
+    all_goals (intro e; exact e.symm)
+  · intro a b c
+    unfold onDomain
+    by_cases ha : D a = true <;> by_cases hb : D b = true <;> by_cases hc : D c = true <;> simp [ha, hb, hc]
+    · exact h.trans a b c ha hb hc
+    all_goals (intros; subst_vars; simp_all)
+
+theorem onDomain_agree [DecidableEq α] (eqv : α → α → Bool) (D : α → Bool) (a b : α)
+    (ha : D a = true) (hb : D b = true) : onDomain eqv D a b = eqv a b := by
+  simp [onDomain, ha, hb]
+
+/-- the scan cannot tell two relations apart that agree on the ids it meets -/
+theorem scan_congr (eqv eqv' : α → α → Bool) (S : α → Prop) (hag : ∀ a b, S a → S b → eqv a b = eqv' a b)
+    (key : β → Option α) (col : List β) (rec : List α)
+    (hc : ∀ e ∈ col, ∀ t, key e = some t → S t) (hr : ∀ x ∈ rec, S x) :
+    scan eqv key col rec = scan eqv' key col rec := by
+  induction col generalizing rec with
+  | nil => rfl
+  | cons e r ih =>
+    have hc' : ∀ e' ∈ r, ∀ t, key e' = some t → S t := fun e' he' => hc e' (List.mem_cons_of_mem _ he')
+    cases hk : key e with
+    | none => simp only [scan, hk, ih rec hc' hr]
+    | some t =>
+      have ht : S t := hc e List.mem_cons_self t hk
+      have hf : rec.filter (fun it => eqv t it) = rec.filter (fun it => eqv' t it) := by
+        apply List.filter_congr
+        intro x hx
+        exact hag t x ht (hr x hx)
+      simp only [scan, hk, hf]
+      rw [ih _ hc' (by
+        intro x hx
+        split at hx
+        · rcases List.mem_append.mp hx with hx | hx
+          · exact hr x hx
+          · have : x = t := by simpa using hx
+            subst this; exact ht
+        · exact hr x hx)]
+
+theorem dedupCol_congr (eqv eqv' : α → α → Bool) (S : α → Prop) (hag : ∀ a b, S a → S b → eqv a b = eqv' a b)
+    (key : β → Option α) (col : List β) (rec : List α)
+    (hc : ∀ e ∈ col, ∀ t, key e = some t → S t) (hr : ∀ x ∈ rec, S x) :
+    dedupCol eqv key col rec = dedupCol eqv' key col rec := by
+  simp only [dedupCol, scan_congr eqv eqv' S hag key col rec hc hr]
+
+/-- one column, relation an equivalence on `D`, every id of the column in `D`: no panic, and exactly
+the first mentions are kept (first mentions with respect to `eqv` itself on these ids) -/
+theorem dedupCol_refines_on [DecidableEq α] (eqv : α → α → Bool) (D : α → Bool) (h : IsEquivOn eqv D)
+    (key : β → Option α) (col : List β) (hc : ∀ e ∈ col, ∀ t, key e = some t → D t = true) :
+    dedupCol eqv key col [] =
+      ((specCol (onDomain eqv D) key col []).1, some (specCol (onDomain eqv D) key col []).2) := by
+  rw [dedupCol_congr eqv (onDomain eqv D) (fun a => D a = true)
+    (fun a b ha hb => (onDomain_agree eqv D a b ha hb).symm) key col [] hc (by simp)]
+  exact (dedupCol_refines (onDomain eqv D) key (onDomain_equiv eqv D h) col [] List.Pairwise.nil).1
+
 end APModel.Recip
